@@ -165,7 +165,7 @@ struct HttpSinkFile : public HttpSink
 	}
 };
 
-HttpMessage::HttpMessage() : _proto("HTTP/1.1"), _socket(NULL), _fileBody(false), _chunked(false), _ownChunks(false)
+HttpMessage::HttpMessage() : _proto("HTTP/1.1"), _socket(NULL), _fileBody(false), _chunked(false), _ownChunks(false), _endByClose(false)
 {
 	_sink = new HttpSinkArray(_body);
 	_headersSent = false;
@@ -767,8 +767,18 @@ bool HttpMessage::sendHeaders()
 		int code = _command.substring(_command.indexOf(' ') + 1);
 		if (code >= 200 && code != 204 && code != 304)
 		{
-			setHeader("Transfer-Encoding", "chunked");
-			_ownChunks = true;
+			if (_command.startsWith("HTTP/1.0 "))
+			{
+				// HTTP/1.0 knows no chunks (RFC 7230 3.3.1): the pieces go out as they are and the end of the
+				// connection ends the message (write() closes it)
+				setHeader("Connection", "close");
+				_endByClose = true;
+			}
+			else
+			{
+				setHeader("Transfer-Encoding", "chunked");
+				_ownChunks = true;
+			}
 		}
 	}
 
@@ -784,7 +794,7 @@ bool HttpMessage::sendHeaders()
 		return false;
 	_headersSent = true;
 	String contentlength = header("Content-Length");
-	_chunked = !contentlength.ok();
+	_chunked = !contentlength.ok() && !_endByClose;
 	_status->totalSend = _chunked ? 0 : int(contentlength);
 	return true;
 }
@@ -798,6 +808,9 @@ bool HttpMessage::write()
 	if (whole && endsChunked(header("Transfer-Encoding")))
 		*_socket << "0\r\n\r\n"; // last chunk
 	_ownChunks = false;
+	if (_endByClose)
+		_socket->close();
+	_endByClose = false;
 	return ok;
 }
 
@@ -929,6 +942,9 @@ bool HttpMessage::putFile(const String& path, int begin, int end)
 	if (whole && endsChunked(header("Transfer-Encoding")))
 		*_socket << "0\r\n\r\n"; // last chunk
 	_ownChunks = false;
+	if (_endByClose)
+		_socket->close();
+	_endByClose = false;
 
 	return true;
 }
